@@ -1,4 +1,4 @@
-\* registry: two racing named spawns (start-up may fail), lookups, stop
+\* control: if a reserved-but-not-yet-active entry did not count as taken (seeded defect) RegistrySound is violated
 CONSTANTS
   Actors = {1, 2}
   Procs = {0, 1, 2}
@@ -27,6 +27,6 @@ CONSTANTS
   StopHooksMayFail = FALSE
   DrainOnClose = FALSE
   ReportBeforeRelease = FALSE
-  ReserveIgnoresStarting = FALSE
+  ReserveIgnoresStarting = TRUE
 SPECIFICATION Spec
-INVARIANTS TypeOK SerialFifo Conservation HandlingOnlyWhileRunning HookOrder CallSound RegistrySound FailedStartFreesName SupervisionSound GroupExactlyOne GroupLockSound GroupTriesEachOnce
+INVARIANTS RegistrySound
